@@ -50,6 +50,20 @@ STRENGTHENED = {
  "C10-e": "after r re-encodings (r+n, n, n+1, p-1, p with every recovery id) on every valid signature, the tiny-r family and a crafted-signature genesis path were added (C10 and C14)",
  "C22-e": "after the whole receive path (handleConnection with the real daemon Handle on a Daemon reduced to its event queue; new verif hooks) was run on bursts and the queued messages looked at after the burst",
  "C20-e": "first reported without a failing input (translator rejected the source, traced syscalls differ); concrete replay after the retry-after-crash scenarios used real torn prefixes and compared the completed retry with the clean save",
+ "C14-e": "after the canonical (r, s) of every crafted tiny-r triple (nonce point x in [n, p)) went through secp256k1go Signature.Verify (rawverify) with all four readings' keys",
+ "C17-e": "after the deterministic reference chain came from the cipher library over the bytes of the seed string and seed strings became free-form (hex-looking, digits, 64-hex legacy, UTF-8)",
+ "C18-e": "after plaintexts of 64+ blocks (and 18-64-address wallets under sha256-xor) were followed by small operations in the same process and ciphertexts were checked by the Lean reference",
+ "C19-e": "after wallets could be aged (backdated through Service.Update / UpdateSecrets) before recover, so that creation and recovery fall into different seconds",
+ "C27-e": "first reported without a failing input; concrete replay after tokens that expire between the construction of a long-lived mux and the request were added",
+ "C28-e": "after pools holding two or three conflicting spends of one output were queried through every pool-dependent view",
+ "C04-f": "after tie histories with 33-47 transactions per block and copies of the publisher's block with a trailing transaction replaced were added (the Lean Merkle recomputation then covers large bodies)",
+ "C07-f": "after the block queries' result SETS (by seqs, ranges incl. beyond the head, last-n for n around the head seq) were compared, not only the blocks returned",
+ "C11-f": "after distribution parameters were also derived as an edited copy of the validated built-in distribution with other lock boundaries",
+ "C13-f": "after encrypted wallets extended while locked (bip44 and deterministic) signed through GuardView; C17 as first built",
+ "C22-f": "after 8-60 KB messages between small ones were run through the real readLoop / receive path under all read sizes",
+ "C24-f": "after the transitions were also driven through the daemon's event handlers (handleEvent / connectionIntroduced on a reduced Daemon; new verif hook)",
+ "C26-f": "after eviction pressure on a full list with LastSeen ties, trusted peers and differing retry counters was added",
+ "C33-f": "C23 as first built; C33 after the serving side was run under outgoing-message limits around the reply size",
  "C07-b": "after the balance view (GetBalanceOfAddresses) joined the whole-state digest and the model",
 }
 rows = []
